@@ -19,7 +19,7 @@ PROPS = {
     'C06': {'units': ['bind', 'pchain'], 'kani': []},
     'C17': {'units': ['cache'], 'kani': []},
     'C10': {'units': ['sched'], 'kani': []},
-    'C18': {'units': ['dsu'], 'kani': []},
+    'C18': {'units': ['dsu', 'order'], 'kani': []},
     'C14': {'units': ['pack', 'pack2'], 'kani': []},
     'C12': {'units': ['bits', 'chal', 'coef', 'rcair'], 'kani': [], 'only': {'chal': r'canonical_width'}},
     'C15': {'units': ['shape', 'openin'], 'kani': [], 'only': {'openin': r'per_matrix_shape_and_grouping|compute_single_reduced_opening|height_group'}},
@@ -267,7 +267,9 @@ META['C18'] = {
             'class_witness / alloc_witness read or create the class slot -- all of them only get/insert, so they are functions of the map views by construction of the contracts; '
             '(2) backfill_connect_mappings, the only place of the anchored lowering code that ITERATES a hash container, is proved for EVERY enumeration order of the set (any duplicate-free sequence '
             'with the same element set) to produce the same map: a spec function of the old map, the membership set, the representatives and the slot table. A test can only sample the orders one '
-            'process happens to produce.',
+            'process happens to produce. Unit order: the loop of get_airs_and_degrees_with_prep that builds the non-primitive AIRs scans a hash map inside the loop over the registered builders; '
+            'it is proved, for EVERY iteration order of that map, to append the AIRs in builder registration order (one per builder that accepts a present op type, under the stated hypothesis that a builder '
+            'accepts at most one present type); poseidon2_air_builders_for_configs yields one builder per listed config in the listed order.',
     'note': 'KERNEL. Determinism of the whole build (emission in DAG creation order, sorted generator order, AIR order by registration, parallel trace generation, preprocessed commitment) is a property '
             'of two runs; only per-function "result is a function of the view" statements are contracts. Not under contract: build_with_public_mapping (its HashMap -> HashMap re-keying and the sorted '
             'generator list are order-insensitive by construction; its tag-transfer loop returns an order-dependent error only when several tags are unmapped), emit_operations, common.rs AIR ordering. '
